@@ -87,8 +87,7 @@ def rand_frame(rng, kind=None):
         ln = int(kind[3:])
         p = rand_unknown_payload(rng, ln) if rng.random() < 0.7 else pad_payload(
             rand_defined_payload(rng, cstrat="zero"), ln, rng)
-        p = p[:ln] if len(p) > ln else p
-        if len(p) != ln:
+        if len(p) != ln:  # never truncate a defined message: that is not a valid frame of its type
             p = rand_unknown_payload(rng, ln)
     return refcrc.frame(p), p, kind
 
